@@ -16,10 +16,10 @@ CLAIMS = {
          "ApplyPreset's de-duplication of the two GREASE extensions and same-group GREASE in key_share/supported_groups, and freshness across connections (probabilistic) are not decided."),
  "C05": ("BoringPaddingStyle and AlwaysPadToLen closures: exact 255/512 policy incl. the 1-byte case and the total-length lemma; UtlsPaddingExtension Len/Read/Update; MarshalClientHelloNoECH calls Update iff there is exactly one padding extension, exactly once, on that extension, with headerLength+4+sum(Len of the others)+2.",
          "FromRaw padding reconstruction is not under contract; Update's callee GetPaddingLen is a user function."),
- "C06": ("Every extension decoder (Write) in u_tls_extensions.go is total and functional: accepted inputs characterised exactly, fields are the wire values (GREASE normalised), order preserved; ApplyPreset re-applies cipher suites, compression methods (defect found and fixed, 7533201) and extension order.",
-         "FromRaw/ReadTLSExtensions/ExtensionFromID composition and the re-marshal idempotence lemma are not under contract; equal-size hypothesis for total length is outside."),
- "C07": ("Panic-freedom (bounds, nil, type assertions, explicit panics) of all 25 extension decoders for arbitrary input bytes, against exact trusted contracts of cryptobyte.String; JSON importers of the extension types and ImportTLSClientHello loops (three panics/overflows found and fixed: 6d91c88, 9e151ed, c42f361).",
-         "Panics inside encoding/json and cryptobyte are assumed away (trusted contracts); the 'valid capture yields usable spec' lemma is not decided."),
+ "C06": ("Every extension decoder (Write) in u_tls_extensions.go is total and functional: accepted inputs characterised exactly, fields are the wire values (GREASE normalised), order preserved; FromRaw: framing accepted exactly as stated, versions, cipher suites (ReadCipherSuites exact, GREASE normalised), compression methods and the no-extension case exact; ReadTLSExtensions keeps the existing prefix and appends only non-nil extensions; AlwaysPadToLen policy; ApplyPreset re-applies cipher suites, compression methods (defect found and fixed, 7533201) and extension order.",
+         "'One spec extension per wire extension, in wire order' through ReadTLSExtensions (interface call to the decoders havocs the caller's cursor component) and the re-marshal idempotence lemma are not decided; equal-size hypothesis for total length is outside."),
+ "C07": ("Panic-freedom (bounds, nil, type assertions, explicit panics) of all 25 extension decoders for arbitrary input bytes, against exact trusted contracts of cryptobyte.String; of the raw import drivers FromRaw, ReadCipherSuites, ReadCompressionMethods, ReadTLSExtensions, AlwaysAddPadding, Fingerprinter entry points; of the JSON importers of the extension types and the ImportTLSClientHello loops (three panics/overflows found and fixed: 6d91c88, 9e151ed, c42f361); AlwaysPadToLen never yields a negative padding length.",
+         "Panics inside encoding/json and cryptobyte are assumed away (trusted contracts); the 'valid capture yields usable spec' lemma is decided only as: success returns a non-nil spec whose appended extensions are non-nil."),
  "C08": ("Len()==bytes written by Read(), prefixes, ErrShortBuffer with unchanged buffer for every built-in extension type incl. the list-valued ones (ALPN, ALPS, key_share, PSK, QUIC TP, GREASE ECH); decoders (Write) functional for 25 types, so Write(body(Read())) fields are pinned per type. Defects found and fixed: 0be6a29 (PSK Len/Read), 5e5db6f (GREASE ECH short payload).",
          "The per-type round-trip lemma Write(Read()) re-encodes to the same bytes is not stated as one lemma (both halves are, separately)."),
  "C09": ("Helpers of generateRandomizedSpec: removeRC4Ciphers (exact subsequence, no RC4), removeRandomCiphers (first kept, order and arbitrary per-element predicates preserved), sortableCiphers order (TLS 1.2 suites before older), shuffledCiphers, salted PRNG derivation, the swap closures; generateRandomizedSpec itself as far as its contract in verif_contracts_random.go goes (key-share/supported_groups consistency after fix e3585fa).",
